@@ -318,7 +318,7 @@ func run(c *lib.Ctx) {
 	lib.Parallel(len(jobs), workers, func(k int) {
 		j := jobs[k]
 		in := batchIn{Seed: c.Seed, From: j.from, To: j.to, Tier: c.Tier}
-		res := c.Child("batch", in, lib.ChildOpts{Race: true, Timeout: 8 * time.Minute})
+		res := c.Child("batch", in, lib.ChildOpts{Race: true, Timeout: 20 * time.Minute})
 		reports := lib.ParseRaceLogs(res.RaceLogs)
 		dec, oth := lib.RaceVerdict(reports, []string{repo + "/wallet/"})
 		mu.Lock()
